@@ -56,6 +56,11 @@ def cases(rng, tier):
         for op in OPS:
             for m in MAGS:
                 out.append(mk(rng, op, dt, row=[m, 0.0, -m, m / 2]))
+            # several entries of one row just below the level at which a single exp overflows (88.72 in float32, 709.78 in
+            # float64): every exp is finite, their sum is not
+            for m in ([87.0, 88.0, 88.5, 88.7] if dt == 'f32' else [88.5, 709.0, 709.5, 709.7]):
+                out.append(mk(rng, op, dt, row=[m, m, 0.0, m]))
+                out.append(mk(rng, op, dt, row=[-m, -m, 0.0, -m]))
             for _ in range(6 if tier == 'quick' else 400):
                 out.append(mk(rng, op, dt))
     for dt in ('f32', 'f64'):
